@@ -12,3 +12,4 @@ import DvidModel.Props.C02
 import DvidModel.Props.C09
 import DvidModel.Props.C10
 import DvidModel.Props.C19
+import DvidModel.Props.C16
